@@ -234,7 +234,7 @@ def check_whole_axis(ctx, fi, rule='R-TILE/whole-axis'):
         core = t
         while isinstance(core, tuple) and core and core[0] == 'call' \
                 and core[1][0] == 'name' and core[1][1] in (
-                    'max', 'min', 'int') and core[2]:
+                    'max', 'min') and core[2]:
             inner = [a for a in core[2] if a[0] != 'const']
             if len(inner) != 1:
                 break
